@@ -117,18 +117,18 @@ type monitor struct {
 	proto string
 	net   *sim.Net
 	// delivered[to][type][from] = delivered with the flag the type demands
-	delivered []map[string]map[int]bool
-	emitted   []map[string][]*sim.Emit // per node, per type
-	seenEmit  int
-	lastRound []int
-	viol      []monViolation
-	Secrets   [][][]byte // per node: byte strings that must never appear on the wire
-	earlyArrivals int    // deliveries of a message belonging to a later round than the recipient's current one
-	wfSteps   int        // WaitingFor evaluations
-	wfPartial int        // ... at which the awaited set was a proper non-empty subset of the peers
-	wfKeys    map[string]bool
-	skipWF    map[string]bool // known-finding signatures to tolerate (counted)
-	knownHits map[string]int
+	delivered     []map[string]map[int]bool
+	emitted       []map[string][]*sim.Emit // per node, per type
+	seenEmit      int
+	lastRound     []int
+	viol          []monViolation
+	Secrets       [][][]byte // per node: byte strings that must never appear on the wire
+	earlyArrivals int        // deliveries of a message belonging to a later round than the recipient's current one
+	wfSteps       int        // WaitingFor evaluations
+	wfPartial     int        // ... at which the awaited set was a proper non-empty subset of the peers
+	wfKeys        map[string]bool
+	skipWF        map[string]bool // known-finding signatures to tolerate (counted)
+	knownHits     map[string]int
 }
 
 func newMonitor(proto string, net *sim.Net) *monitor {
